@@ -1121,7 +1121,7 @@ func c14CasRules(c *eng.Ctx) {
 		}
 		nc := eng.Normalize(ifi.Cond)
 		bo, ok := nc.Val.(*ssa.BinOp)
-		if !ok || !strings.HasSuffix(nc.Base, "== "+eng.VarName(f.Params[2])+".CurrentVersion") {
+		if !ok || !(strings.HasSuffix(nc.Base, "== "+eng.VarName(f.Params[2])+".CurrentVersion") || strings.HasSuffix(nc.Alt, "== "+eng.VarName(f.Params[2])+".CurrentVersion")) {
 			continue
 		}
 		found = true
